@@ -353,8 +353,8 @@ def fault_cases(draw):
 
 
 def shard(ctx: Ctx):
-    explore(ctx, "valid", valid_cases(), check_valid, ctx.n(480, 24000), batch=60)
-    explore(ctx, "fault", fault_cases(), check_fault, ctx.n(2000, 120000), batch=125)
+    explore(ctx, "valid", valid_cases(), check_valid, ctx.n(640, 24000), batch=40)
+    explore(ctx, "fault", fault_cases(), check_fault, ctx.n(3600, 160000), batch=75)
 
 
 def replay(sub, case, ctx: Ctx):
